@@ -852,6 +852,35 @@ Verdict oracleC04(decoder_t *d, const Obs &o, bool final, Ctx &ctx) {
       PBT_CHECK((int)w.kids[j].kids.size() == nEmit, "alignment-states-vs-model", when << ": phone " << w.kids[j].name << " has " << w.kids[j].kids.size() << " states, the model " << nEmit);
     }
   }
+  // 2b. the states under a phone are the emitting states, in order, of a model of that phone: the senone
+  // sequence must be the one of some triphone (or the context-independent model) of that base phone, and
+  // for a word-internal phone exactly the one of the triphone its neighbours in the pronunciation select
+  {
+    bin_mdef_t *m = d->acmod->mdef;
+    static std::map<bin_mdef_t *, std::map<int, std::set<std::vector<int>>>> seqsOf;
+    auto &byCi = seqsOf[m];
+    if (byCi.empty())
+      for (int pid = 0; pid < bin_mdef_n_phone(m); ++pid) {
+        std::vector<int> sq;
+        for (int k = 0; k < nEmit; ++k) sq.push_back(bin_mdef_sseq2sen(m, bin_mdef_pid2ssid(m, pid), k));
+        byCi[bin_mdef_pid2ci(m, pid)].insert(sq);
+      }
+    for (auto &w : ws) {
+      int32 wid = dict_wordid(d->dict, w.name.c_str());
+      for (size_t j = 0; j < w.kids.size(); ++j) {
+        std::vector<int> sq;
+        for (auto &st : w.kids[j].kids) sq.push_back(atoi(st.name.c_str()));
+        int ci = dict_pron(d->dict, wid, (int)j);
+        PBT_CHECK(byCi[ci].count(sq), "alignment-states-vs-model", when << ": the states of phone " << j << " (" << w.kids[j].name << ") of '" << w.name << "' are not the emitting states, in order, of any model of that phone in " << dump);
+        if (j > 0 && j + 1 < w.kids.size()) {
+          int pid = bin_mdef_phone_id_nearest(m, ci, dict_pron(d->dict, wid, (int)j - 1), dict_pron(d->dict, wid, (int)j + 1), WORD_POSN_INTERNAL);
+          std::vector<int> want;
+          for (int k = 0; k < nEmit; ++k) want.push_back(bin_mdef_sseq2sen(m, bin_mdef_pid2ssid(m, pid), k));
+          PBT_CHECK(sq == want, "alignment-states-vs-model", when << ": the states of word-internal phone " << j << " (" << w.kids[j].name << ") of '" << w.name << "' are not those of its triphone in " << dump);
+        }
+      }
+    }
+  }
   // 3. contiguity from frame 0 at every level; children partition their parent
   Verdict v = checkLevel(ws, 0, -1, "word", dump);
   if (!v.ok) return v;
@@ -873,6 +902,24 @@ Verdict oracleC04(decoder_t *d, const Obs &o, bool final, Ctx &ctx) {
       ps += p.score;
     }
     PBT_CHECK(ps == w.score, "parent-score-not-sum-of-children", when << ": word '" << w.name << "' scores " << w.score << ", its phones sum to " << ps << " in " << dump);
+  }
+  // 5. each word's score equals the acoustic part of what the search gave that word over the same frames.
+  // Judged where both passes see the same frame scores (compallsen: no dependence on the active set): the
+  // search's segment score minus the configured insertion penalties it contains is a within-word path score
+  // over the same frames and models, so the second pass, which maximises over those, can never be below it,
+  // and equals it when the search did not prune (beams disabled).
+  if (d->acmod->compallsen) {
+    fsg_search_t *fs = (fsg_search_t *)d->search;
+    config_t *cfg = decoder_config(d);
+    bool open = config_float(cfg, "beam") == 0 && config_float(cfg, "pbeam") == 0 && config_float(cfg, "wbeam") == 0;
+    for (size_t i = 0; i < ws.size(); ++i) {
+      int32 wid = dict_wordid(d->dict, ws[i].name.c_str());
+      long pen = (long)fs->wip + (long)fs->pip * dict_pronlen(d->dict, wid);
+      long firstPass = (long)dictSegs[i].ascr - pen;
+      PBT_CHECK(ws[i].score >= firstPass, "word-score-below-first-pass", when << ": word " << i << " '" << ws[i].name << "' has alignment score " << ws[i].score << " but the search gave it " << dictSegs[i].ascr << " including penalties " << pen << " = " << firstPass << " over the same frames; " << o.str() << " vs " << dump);
+      if (open) PBT_CHECK(ws[i].score == firstPass, "word-score-differs-from-first-pass", when << ": word " << i << " '" << ws[i].name << "' has alignment score " << ws[i].score << " but the search (no pruning) gave it " << dictSegs[i].ascr << " including penalties " << pen << " = " << firstPass << " over the same frames; " << o.str() << " vs " << dump);
+    }
+    ctx.label(open ? "cross-pass:equality" : "cross-pass:bound");
   }
   int real = 0;
   bool fillerBetween = false, alt = false;
